@@ -104,6 +104,8 @@ pub struct CaseDesc {
     pub color: &'static str,
     pub wrapper: Wrapper,
     pub scalar: &'static str,
+    /// scalar type of the alpha slot when it differs from the color's components
+    pub alpha_scalar: Option<&'static str>,
     pub shape: Shape,
     /// serde name of the container
     pub ser_name: &'static str,
@@ -183,126 +185,82 @@ const fn ops<X: Case>() -> Ops {
     }
 }
 
-// optional alpha helpers
-fn opt_replay_alpha<C, A>(tok: &Tok, pres: &Presentation, peer: &Peer, expect: &[f64]) -> Result<Outcome, SimError>
-where
-    C: DeserializeOwned,
-    A: palette::stimulus::Stimulus + DeserializeOwned,
-    Alpha<C, A>: Case,
-{
-    let x: Alpha<C, A> = palette::serde::deserialize_with_optional_alpha(Replay { tok, pres, peer, top: true })?;
-    Ok(outcome(x, expect))
-}
-fn opt_json_alpha<C, A>(text: &str, expect: &[f64]) -> IoResult<Outcome>
-where
-    C: DeserializeOwned,
-    A: palette::stimulus::Stimulus + DeserializeOwned,
-    Alpha<C, A>: Case,
-{
-    let mut de = serde_json::Deserializer::from_str(text);
-    let x: Alpha<C, A> = palette::serde::deserialize_with_optional_alpha(&mut de).map_err(|e| e.to_string())?;
-    de.end().map_err(|e| e.to_string())?;
-    Ok(outcome(x, expect))
-}
-fn opt_ron_alpha<C, A>(text: &str, expect: &[f64]) -> IoResult<Outcome>
-where
-    C: DeserializeOwned,
-    A: palette::stimulus::Stimulus + DeserializeOwned,
-    Alpha<C, A>: Case,
-{
-    let mut de = ron::de::Deserializer::from_str(text).map_err(|e| e.to_string())?;
-    let x: Alpha<C, A> = palette::serde::deserialize_with_optional_alpha(&mut de).map_err(|e| e.to_string())?;
-    de.end().map_err(|e| e.to_string())?;
-    Ok(outcome(x, expect))
-}
-fn opt_ron_pre<C>(text: &str, expect: &[f64]) -> IoResult<Outcome>
-where
-    C: palette::blend::Premultiply + DeserializeOwned,
-    C::Scalar: palette::stimulus::Stimulus + DeserializeOwned,
-    PreAlpha<C>: Case,
-{
-    let mut de = ron::de::Deserializer::from_str(text).map_err(|e| e.to_string())?;
-    let x: PreAlpha<C> = palette::serde::deserialize_with_optional_pre_alpha(&mut de).map_err(|e| e.to_string())?;
-    de.end().map_err(|e| e.to_string())?;
-    Ok(outcome(x, expect))
-}
-fn opt_replay_pre<C>(tok: &Tok, pres: &Presentation, peer: &Peer, expect: &[f64]) -> Result<Outcome, SimError>
-where
-    C: palette::blend::Premultiply + DeserializeOwned,
-    C::Scalar: palette::stimulus::Stimulus + DeserializeOwned,
-    PreAlpha<C>: Case,
-{
-    let x: PreAlpha<C> = palette::serde::deserialize_with_optional_pre_alpha(Replay { tok, pres, peer, top: true })?;
-    Ok(outcome(x, expect))
-}
-fn opt_json_pre<C>(text: &str, expect: &[f64]) -> IoResult<Outcome>
-where
-    C: palette::blend::Premultiply + DeserializeOwned,
-    C::Scalar: palette::stimulus::Stimulus + DeserializeOwned,
-    PreAlpha<C>: Case,
-{
-    let mut de = serde_json::Deserializer::from_str(text);
-    let x: PreAlpha<C> = palette::serde::deserialize_with_optional_pre_alpha(&mut de).map_err(|e| e.to_string())?;
-    de.end().map_err(|e| e.to_string())?;
-    Ok(outcome(x, expect))
+// Helper entry points. These are MACROS that expand to closures over concrete types, not generic
+// functions: a generic wrapper would have to repeat palette's own trait bounds (`A: Stimulus`,
+// `T: ArrayCast`, ...), and then a change to one of those bounds in palette — which every concrete
+// caller survives — would stop the harness from building instead of being judged. (Learnt from a seeded
+// change that relaxed `A: Stimulus` to `A: num::One` on `deserialize_with_optional_alpha`.)
+macro_rules! opt_ops_alpha {
+    ($col:ty, $a:ty) => {
+        OptOps {
+            replay: |tok: &Tok, pres: &Presentation, peer: &Peer, expect: &[f64]| -> Result<Outcome, SimError> {
+                let x: Alpha<$col, $a> = palette::serde::deserialize_with_optional_alpha(Replay { tok, pres, peer, top: true })?;
+                Ok(outcome(x, expect))
+            },
+            json_from_str: |text: &str, expect: &[f64]| -> IoResult<Outcome> {
+                let mut de = serde_json::Deserializer::from_str(text);
+                let x: Alpha<$col, $a> = palette::serde::deserialize_with_optional_alpha(&mut de).map_err(|e| e.to_string())?;
+                de.end().map_err(|e| e.to_string())?;
+                Ok(outcome(x, expect))
+            },
+            ron_from_str: |text: &str, expect: &[f64]| -> IoResult<Outcome> {
+                let mut de = ron::de::Deserializer::from_str(text).map_err(|e| e.to_string())?;
+                let x: Alpha<$col, $a> = palette::serde::deserialize_with_optional_alpha(&mut de).map_err(|e| e.to_string())?;
+                de.end().map_err(|e| e.to_string())?;
+                Ok(outcome(x, expect))
+            },
+        }
+    };
 }
 
-// array helpers
-fn arr_record<X>(vals: &[f64], peer: &Peer) -> Result<Tok, SimError>
-where
-    X: Case + palette::cast::ArrayCast,
-    X::Array: Serialize,
-{
-    palette::serde::serialize_as_array(&X::build(vals), Rec { peer })
-}
-fn arr_replay<X>(tok: &Tok, pres: &Presentation, peer: &Peer, expect: &[f64]) -> Result<Outcome, SimError>
-where
-    X: Case + palette::cast::ArrayCast,
-    X::Array: DeserializeOwned,
-{
-    let x: X = palette::serde::deserialize_as_array(Replay { tok, pres, peer, top: false })?;
-    Ok(outcome(x, expect))
-}
-fn arr_cast_tok<X>(vals: &[f64]) -> Tok
-where
-    X: Case + palette::cast::ArrayCast,
-    X::Array: Serialize,
-{
-    let peer = Peer::new(None);
-    palette::cast::into_array(X::build(vals)).serialize(Rec { peer: &peer }).expect("recording an array cannot fail")
-}
-fn arr_json_string<X>(vals: &[f64]) -> IoResult<String>
-where
-    X: Case + palette::cast::ArrayCast,
-    X::Array: Serialize,
-{
-    let mut out = Vec::new();
-    palette::serde::serialize_as_array(&X::build(vals), &mut serde_json::Serializer::new(&mut out)).map_err(|e| e.to_string())?;
-    String::from_utf8(out).map_err(|e| e.to_string())
-}
-fn arr_json_from_str<X>(text: &str, expect: &[f64]) -> IoResult<Outcome>
-where
-    X: Case + palette::cast::ArrayCast,
-    X::Array: DeserializeOwned,
-{
-    let mut de = serde_json::Deserializer::from_str(text);
-    let x: X = palette::serde::deserialize_as_array(&mut de).map_err(|e| e.to_string())?;
-    de.end().map_err(|e| e.to_string())?;
-    Ok(outcome(x, expect))
+macro_rules! opt_ops_pre {
+    ($col:ty) => {
+        OptOps {
+            replay: |tok: &Tok, pres: &Presentation, peer: &Peer, expect: &[f64]| -> Result<Outcome, SimError> {
+                let x: PreAlpha<$col> = palette::serde::deserialize_with_optional_pre_alpha(Replay { tok, pres, peer, top: true })?;
+                Ok(outcome(x, expect))
+            },
+            json_from_str: |text: &str, expect: &[f64]| -> IoResult<Outcome> {
+                let mut de = serde_json::Deserializer::from_str(text);
+                let x: PreAlpha<$col> = palette::serde::deserialize_with_optional_pre_alpha(&mut de).map_err(|e| e.to_string())?;
+                de.end().map_err(|e| e.to_string())?;
+                Ok(outcome(x, expect))
+            },
+            ron_from_str: |text: &str, expect: &[f64]| -> IoResult<Outcome> {
+                let mut de = ron::de::Deserializer::from_str(text).map_err(|e| e.to_string())?;
+                let x: PreAlpha<$col> = palette::serde::deserialize_with_optional_pre_alpha(&mut de).map_err(|e| e.to_string())?;
+                de.end().map_err(|e| e.to_string())?;
+                Ok(outcome(x, expect))
+            },
+        }
+    };
 }
 
-const fn arr_ops<X>() -> ArrOps
-where
-    X: Case + palette::cast::ArrayCast,
-    X::Array: Serialize + DeserializeOwned,
-{
-    ArrOps {
-        record: arr_record::<X>,
-        replay: arr_replay::<X>,
-        cast_tok: arr_cast_tok::<X>,
-        json_string: arr_json_string::<X>,
-        json_from_str: arr_json_from_str::<X>,
-    }
+macro_rules! arr_ops {
+    ($x:ty) => {
+        ArrOps {
+            record: |vals: &[f64], peer: &Peer| -> Result<Tok, SimError> { palette::serde::serialize_as_array(&<$x as Case>::build(vals), Rec { peer }) },
+            replay: |tok: &Tok, pres: &Presentation, peer: &Peer, expect: &[f64]| -> Result<Outcome, SimError> {
+                let x: $x = palette::serde::deserialize_as_array(Replay { tok, pres, peer, top: false })?;
+                Ok(outcome(x, expect))
+            },
+            cast_tok: |vals: &[f64]| -> Tok {
+                let peer = Peer::new(None);
+                palette::cast::into_array(<$x as Case>::build(vals)).serialize(Rec { peer: &peer }).expect("recording an array cannot fail")
+            },
+            json_string: |vals: &[f64]| -> IoResult<String> {
+                let mut out = Vec::new();
+                palette::serde::serialize_as_array(&<$x as Case>::build(vals), &mut serde_json::Serializer::new(&mut out)).map_err(|e| e.to_string())?;
+                String::from_utf8(out).map_err(|e| e.to_string())
+            },
+            json_from_str: |text: &str, expect: &[f64]| -> IoResult<Outcome> {
+                let mut de = serde_json::Deserializer::from_str(text);
+                let x: $x = palette::serde::deserialize_as_array(&mut de).map_err(|e| e.to_string())?;
+                de.end().map_err(|e| e.to_string())?;
+                Ok(outcome(x, expect))
+            },
+        }
+    };
 }
 
 // ------------------------------------------------------------------ per-type tables
@@ -354,16 +312,16 @@ macro_rules! color_body {
         pub const FIELDS: &[&str] = &[$(stringify!($f)),+];
 
         pub static PLAIN: CaseDesc = CaseDesc {
-            name: concat!($name, "<", $tn, ">"), color: $name, wrapper: Wrapper::None, scalar: $tn, shape: Shape::Struct,
+            name: concat!($name, "<", $tn, ">"), color: $name, wrapper: Wrapper::None, scalar: $tn, alpha_scalar: None, shape: Shape::Struct,
             ser_name: $sername, fields: FIELDS, hue_slot: $hue, nvals: N,
-            ops: ops::<Col>(), opt: None, arr: Some(arr_ops::<Col>()), inner: None,
+            ops: ops::<Col>(), opt: None, arr: Some(arr_ops!(Col)), inner: None,
         };
         pub static ALPHA: CaseDesc = CaseDesc {
-            name: concat!("Alpha<", $name, "<", $tn, ">>"), color: $name, wrapper: Wrapper::Alpha, scalar: $tn, shape: Shape::Struct,
+            name: concat!("Alpha<", $name, "<", $tn, ">>"), color: $name, wrapper: Wrapper::Alpha, scalar: $tn, alpha_scalar: None, shape: Shape::Struct,
             ser_name: $sername, fields: FIELDS, hue_slot: $hue, nvals: N + 1,
             ops: ops::<Alpha<Col, T>>(),
-            opt: Some(OptOps { replay: opt_replay_alpha::<Col, T>, json_from_str: opt_json_alpha::<Col, T>, ron_from_str: opt_ron_alpha::<Col, T> }),
-            arr: Some(arr_ops::<Alpha<Col, T>>()),
+            opt: Some(opt_ops_alpha!(Col, T)),
+            arr: Some(arr_ops!(Alpha<Col, T>)),
             inner: Some(concat!($name, "<", $tn, ">")),
         };
         color_body!(@premul $premul, $name, $sername, $tn, $hue);
@@ -374,10 +332,10 @@ macro_rules! color_body {
             fn comps(&self) -> Vec<u64> { let mut c = self.color.comps(); c.push((self.alpha as f64).to_bits()); c }
         }
         pub static PRE: Option<CaseDesc> = Some(CaseDesc {
-            name: concat!("PreAlpha<", $name, "<", $tn, ">>"), color: $name, wrapper: Wrapper::PreAlpha, scalar: $tn, shape: Shape::Struct,
+            name: concat!("PreAlpha<", $name, "<", $tn, ">>"), color: $name, wrapper: Wrapper::PreAlpha, scalar: $tn, alpha_scalar: None, shape: Shape::Struct,
             ser_name: $sername, fields: FIELDS, hue_slot: $hue, nvals: N + 1,
             ops: ops::<PreAlpha<Col>>(),
-            opt: Some(OptOps { replay: opt_replay_pre::<Col>, json_from_str: opt_json_pre::<Col>, ron_from_str: opt_ron_pre::<Col> }),
+            opt: Some(opt_ops_pre!(Col)),
             arr: None,
             inner: Some(concat!($name, "<", $tn, ">")),
         });
@@ -475,11 +433,11 @@ macro_rules! ser_hue {
                 fn comps(&self) -> Vec<u64> { vec![self.into_raw_degrees().to_bits()] }
             }
             pub static F32: CaseDesc = CaseDesc {
-                name: concat!($name, "<f32>"), color: $name, wrapper: Wrapper::None, scalar: "f32", shape: Shape::Hue,
+                name: concat!($name, "<f32>"), color: $name, wrapper: Wrapper::None, scalar: "f32", alpha_scalar: None, shape: Shape::Hue,
                 ser_name: $name, fields: &[], hue_slot: Some(0), nvals: 1, ops: ops::<$h<f32>>(), opt: None, arr: None, inner: None,
             };
             pub static F64: CaseDesc = CaseDesc {
-                name: concat!($name, "<f64>"), color: $name, wrapper: Wrapper::None, scalar: "f64", shape: Shape::Hue,
+                name: concat!($name, "<f64>"), color: $name, wrapper: Wrapper::None, scalar: "f64", alpha_scalar: None, shape: Shape::Hue,
                 ser_name: $name, fields: &[], hue_slot: Some(0), nvals: 1, ops: ops::<$h<f64>>(), opt: None, arr: None, inner: None,
             };
         }
@@ -571,13 +529,13 @@ pub mod user {
     macro_rules! user_desc {
         ($plain:ident, $alpha:ident, $t:ty, $name:literal, $sername:literal, $shape:expr, $fields:expr, $n:expr) => {
             pub static $plain: CaseDesc = CaseDesc {
-                name: $name, color: $name, wrapper: Wrapper::None, scalar: "f32", shape: $shape, ser_name: $sername,
+                name: $name, color: $name, wrapper: Wrapper::None, scalar: "f32", alpha_scalar: None, shape: $shape, ser_name: $sername,
                 fields: $fields, hue_slot: None, nvals: $n, ops: ops::<$t>(), opt: None, arr: None, inner: None,
             };
             pub static $alpha: CaseDesc = CaseDesc {
-                name: concat!("Alpha<", $name, ">"), color: $name, wrapper: Wrapper::Alpha, scalar: "f32", shape: $shape, ser_name: $sername,
+                name: concat!("Alpha<", $name, ">"), color: $name, wrapper: Wrapper::Alpha, scalar: "f32", alpha_scalar: None, shape: $shape, ser_name: $sername,
                 fields: $fields, hue_slot: None, nvals: $n + 1, ops: ops::<Alpha<$t, f32>>(),
-                opt: Some(OptOps { replay: opt_replay_alpha::<$t, f32>, json_from_str: opt_json_alpha::<$t, f32>, ron_from_str: opt_ron_alpha::<$t, f32> }),
+                opt: Some(opt_ops_alpha!($t, f32)),
                 arr: None, inner: Some($name),
             };
         };
@@ -589,6 +547,33 @@ pub mod user {
     user_desc!(UNITTYPE, UNITTYPE_A, (), "()", "", Shape::UnitType, &[], 0);
     user_desc!(UNITTUPLE, UNITTUPLE_A, UnitTuple, "UnitTuple", "UnitTuple", Shape::TupleStruct, &[], 0);
     user_desc!(PAIR, PAIR_A, (f32, f32), "(f32,f32)", "", Shape::Tuple, &[], 2);
+}
+
+// ---- alpha of another scalar type than the color's components
+pub mod mixed {
+    use super::*;
+    use simcore::types::{HsvC, RgbC};
+
+    macro_rules! mixed_case {
+        ($id:ident, $name:literal, $col:ty, $ct:literal, $at:ty, $atn:literal, $sername:literal, $fields:expr, $hue:expr, $inner:literal) => {
+            impl Case for Alpha<$col, $at> {
+                fn build(v: &[f64]) -> Self { Alpha { color: <$col as Case>::build(v), alpha: sc::<$at>(v[3]) } }
+                fn comps(&self) -> Vec<u64> { let mut c = self.color.comps(); c.push((self.alpha as f64).to_bits()); c }
+            }
+            pub static $id: CaseDesc = CaseDesc {
+                name: $name, color: $sername, wrapper: Wrapper::Alpha, scalar: $ct, alpha_scalar: Some($atn), shape: Shape::Struct,
+                ser_name: $sername, fields: $fields, hue_slot: $hue, nvals: 4,
+                ops: ops::<Alpha<$col, $at>>(),
+                opt: Some(opt_ops_alpha!($col, $at)),
+                arr: None,
+                inner: Some($inner),
+            };
+        };
+    }
+    mixed_case!(RGB_F32_U8, "Alpha<Rgb<f32>,u8>", RgbC<f32>, "f32", u8, "u8", "Rgb", &["red", "green", "blue"], None, "Rgb<f32>");
+    mixed_case!(RGB_U8_F32, "Alpha<Rgb<u8>,f32>", RgbC<u8>, "u8", f32, "f32", "Rgb", &["red", "green", "blue"], None, "Rgb<u8>");
+    mixed_case!(HSV_F64_U16, "Alpha<Hsv<f64>,u16>", HsvC<f64>, "f64", u16, "u16", "Hsv", &["hue", "saturation", "value"], Some(0), "Hsv<f64>");
+    mixed_case!(RGB_F64_F32, "Alpha<Rgb<f64>,f32>", RgbC<f64>, "f64", f32, "f32", "Rgb", &["red", "green", "blue"], None, "Rgb<f64>");
 }
 
 // ---- packed colors through as_uint
@@ -666,6 +651,9 @@ pub fn all_cases() -> Vec<&'static CaseDesc> {
     v.push(&luma_uint::u16_::ALPHA);
     for h in [&rgbhue::F32, &rgbhue::F64, &labhue::F32, &labhue::F64, &luvhue::F32, &luvhue::F64, &oklabhue::F32, &oklabhue::F64, &cam16hue::F32, &cam16hue::F64] {
         v.push(h);
+    }
+    for m in [&mixed::RGB_F32_U8, &mixed::RGB_U8_F32, &mixed::HSV_F64_U16, &mixed::RGB_F64_F32] {
+        v.push(m);
     }
     for u in [
         &user::UNIT, &user::UNIT_A, &user::NEWTYPE, &user::NEWTYPE_A, &user::TUPLE, &user::TUPLE_A, &user::NAMED, &user::NAMED_A,
